@@ -26,11 +26,14 @@ that are kept (`resolve_imports`, `resolve_unloaded_kept`), a media-restricted i
 block with its query (`resolve_media_wrapped`), no loaded import is left when every restricted import
 imports a plain sheet (`resolve_no_loaded_import_left`; otherwise the import is KEPT, as the docstring says),
 the flat sheet is arranged [one comment] @imports, @namespaces, the rest (`resolve_arrangement`) and is a
-fixed point when no loaded import is left (`resolve_idempotent`).  What the property text does not say
-and the code does is kept as kernel-checked witnesses: HierarchyRequestErr leaves resolveImports when a
-media-restricted import imports a sheet with an @import that stays (`restricted_nested_unloaded_raises`),
-NoModificationAllowedErr when namespace prefixes clash (`namespace_clash_raises`), a second run repeats the
-START comment of a kept import (`not_idempotent_when_kept`).
+fixed point when no loaded import is left (`resolve_idempotent`).  A media-restricted import of a sheet
+whose flat sheet still holds an @import (one that could not be loaded, or a kept one) is kept as well
+(`restricted_nested_unloaded_kept`; before the repair cdf8fa7 of the library this made `CSSMediaRule.add`
+raise HierarchyRequestErr out of resolveImports), and HierarchyRequestErr never leaves resolveImports
+(`resolve_never_hierarchy`): the only outcomes are a flat sheet or NoModificationAllowedErr
+(`resolve_outcomes`).  What the property text does not say and the code does is kept as kernel-checked
+witnesses: NoModificationAllowedErr when namespace prefixes clash (`namespace_clash_raises`), a second run
+repeats the START comment of a kept import (`not_idempotent_when_kept`).
 -/
 import CssVerif.Proofs.Import
 import CssVerif.Proofs.ResolveNF
@@ -95,7 +98,7 @@ theorem resolve_fuel_enough (s : Sheet) (fuel : Nat) (h : heightL s ≤ fuel) :
 /-- **(a) order**: the body rules (everything but @charset, @import, @namespace) of the flat sheet are,
 in order, the traversal `flatBody` of the import tree: nothing lost, nothing duplicated, nothing moved -/
 theorem resolve_order (s t : Sheet) (h : resolveImports s = .ok t) : t.filter Rule.isBody = flatBody s :=
-  (resolve_ok s t h).2.2.1
+  (resolve_ok s t h).2.1
 
 /-- what `flatBody` is: document order; a loaded @import is replaced by its START comment followed by —
 nothing if it is kept as a rule, else the body of its own flat sheet, in ONE @media block if restricted -/
@@ -106,26 +109,31 @@ theorem flatBody_def (r : Rule) (rs : Sheet) : flatBody [] = [] ∧ flatBody (r 
         (if kept q sub then [] else if q = 0 then flatBody sub else [.media q (flatBody sub)])
      | r => [r]) ++ flatBody rs := ⟨flatBody_nil, flatBody_cons r rs⟩
 
-/-- when a loaded @import stays a rule: the nested call raised HierarchyRequestErr, or the import is
-media-restricted and its flat sheet holds something else than comments, style rules and @imports -/
+/-- when a loaded @import stays a rule: it is media-restricted and the flat sheet of the imported sheet
+holds something else than comments and style rules — an @namespace rule, an @import rule (an unloaded or
+a kept one), or another body rule -/
 theorem kept_def (q : Nat) (sub : Sheet) :
-    kept q sub = (raisesHierarchy sub || (q != 0 && flatHard sub)) ∧
-    flatHard sub = ((sumL sub).ns || (flatBody sub).any (fun x => !x.canWrap)) := ⟨rfl, rfl⟩
+    kept q sub = (q != 0 && flatHard sub) ∧
+    flatHard sub = ((sumL sub).ns || !(flatImports sub).isEmpty || (flatBody sub).any (fun x => !x.canWrap)) :=
+  ⟨rfl, rfl⟩
 
 /-- what cannot live in the @media block of a restricted import keeps the import: @namespace, @font-face,
-@page, an unknown at-rule, an @media block; the imported sheet's @charset is dropped and does not count;
-with media `all` nothing is kept for these reasons -/
+@page, an unknown at-rule, an @media block, an @import that could not be loaded (directly or handed up by
+an unrestricted import); the imported sheet's @charset is dropped and does not count; with media `all`
+nothing is kept -/
 example : kept 5 [.ns 0 1] = true ∧ kept 5 [.block .fontface 1] = true ∧ kept 5 [.block .page 1] = true ∧
     kept 5 [.block .unknown 1] = true ∧ kept 5 [.media 2 []] = true ∧
+    kept 5 [.imp 2 0 none, .style 1 []] = true ∧ kept 5 [.imp 2 0 (some [.imp 3 0 none, .style 1 []])] = true ∧
     kept 5 [.charset 1, .comment 1, .style 1 []] = false ∧ kept 0 [.ns 0 1, .block .page 1, .media 2 []] = false ∧
+    kept 0 [.imp 2 0 none] = false ∧
     resolveImports [.imp 1 0 (some [.charset 1, .ns 0 1, .block .page 1]), .style 9 []] =
-      .ok [.ns 0 1, .start 1, .block .page 1, .style 9 []] := ⟨rfl, rfl, rfl, rfl, rfl, rfl, rfl, rfl⟩
+      .ok [.ns 0 1, .start 1, .block .page 1, .style 9 []] := ⟨rfl, rfl, rfl, rfl, rfl, rfl, rfl, rfl, rfl, rfl, rfl⟩
 
 /-- (a) for trees in which every import can be inlined: the naive traversal (every loaded import expanded
 in place, restricted ones inside @media) -/
 theorem resolve_order_inlinable (s t : Sheet) (h : resolveImports s = .ok t) (hi : inlinableL s = true) :
     t.filter Rule.isBody = expandL s := by
-  rw [resolve_order s t h]; exact (inlinableL_sum s hi).2.1
+  rw [resolve_order s t h]; exact (inlinableL_sum s hi).1
 
 /-- non-vacuity of `inlinableL`: a restricted import of a sheet that imports a plain sheet -/
 example : inlinableL [.imp 1 5 (some [.charset 1, .imp 2 0 (some [.style 1 []]), .comment 3]), .imp 4 0 none, .style 9 []] = true ∧
@@ -134,11 +142,11 @@ example : inlinableL [.imp 1 5 (some [.charset 1, .imp 2 0 (some [.style 1 []]),
 
 /-- **(b) the @import rules of the flat sheet** are exactly `flatImports`: -/
 theorem resolve_imports (s t : Sheet) (h : resolveImports s = .ok t) : t.filter Rule.isImport = flatImports s :=
-  (resolve_ok s t h).2.1
+  (resolve_ok s t h).1
 
 /-- an unloaded @import stays; a loaded one stays if kept, hands up the @imports of its own flat sheet if
 its media is `all` (an unloaded import inside a loaded sheet thus becomes an @import of the flat sheet, its
-href unchanged), and has none to hand up if it is restricted: -/
+href unchanged), and has none to hand up if it is restricted (with one, it is kept): -/
 theorem flatImports_def (r : Rule) (rs : Sheet) : flatImports (r :: rs) =
     (match r with
      | .imp i q none => [.imp i q none]
@@ -165,48 +173,85 @@ theorem unloaded_moves_to_front :
     resolveImports [.comment 0, .imp 1 0 (some [.style 1 []]), .imp 2 0 none, .style 9 []] =
       .ok [.comment 0, .imp 2 0 none, .start 1, .style 1 [], .style 9 []] := rfl
 
-/-- HierarchyRequestErr leaves `resolveImports` exactly as `raisesHierarchy` says -/
-theorem resolve_hierarchy_outcome (s : Sheet) :
-    (∀ t, resolveImports s = .ok t → raisesHierarchy s = false) ∧
-    (resolveImports s = .raised .hierarchy → raisesHierarchy s = true) :=
-  ⟨fun t h => (resolve_ok s t h).1, resolve_hierarchy s⟩
-
-theorem raisesHierarchy_def (r : Rule) (rs : Sheet) : raisesHierarchy (r :: rs) =
-    ((match r with
-      | .imp _ q (some sub) => !kept q sub && q != 0 && !(flatImports sub).isEmpty
-      | _ => false) || raisesHierarchy rs) := raisesHierarchy_cons r rs
-
-theorem raisesHierarchy_of_mem : ∀ (s : Sheet) (i q : Nat) (sub : Sheet), Rule.imp i q (some sub) ∈ s →
-    kept q sub = false → q ≠ 0 → flatImports sub ≠ [] → raisesHierarchy s = true
-  | [], _, _, _, h, _, _, _ => by simp at h
-  | r :: rs, i, q, sub, h, hk, hq, hu => by
-    rw [raisesHierarchy_cons]
+/-- a kept import stays an @import rule of the flat sheet -/
+theorem kept_mem_flatImports : ∀ (s : Sheet) (i q : Nat) (sub : Sheet), Rule.imp i q (some sub) ∈ s →
+    kept q sub = true → Rule.imp i q (some sub) ∈ flatImports s
+  | [], _, _, _, h, _ => by simp at h
+  | r :: rs, i, q, sub, h, hk => by
+    rw [flatImports_cons]
     rcases List.mem_cons.1 h with h | h
-    · subst h
-      have : (flatImports sub).isEmpty = false := by cases hf : flatImports sub <;> simp_all
-      simp [hk, hq, this]
-    · rw [raisesHierarchy_of_mem rs i q sub h hk hq hu]; simp
+    · subst h; simp [hk]
+    · exact List.mem_append_right _ (kept_mem_flatImports rs i q sub h hk)
 
-/-- **what happens to an unloaded @import inside a media-restricted loaded import**: the call does not
-return (HierarchyRequestErr from `CSSMediaRule.add`; one level further down the enclosing import is kept) -/
-theorem restricted_nested_unloaded_raises (s : Sheet) (i q : Nat) (sub : Sheet)
-    (hm : Rule.imp i q (some sub) ∈ s) (hq : q ≠ 0) (hk : kept q sub = false) (hu : flatImports sub ≠ []) :
-    ∀ t, resolveImports s ≠ .ok t := by
-  intro t h
-  have := (resolve_ok s t h).1
-  rw [raisesHierarchy_of_mem s i q sub hm hk hq hu] at this
-  simp at this
+theorem resolve_kept_stays (s t : Sheet) (i q : Nat) (sub : Sheet) (h : resolveImports s = .ok t)
+    (hm : Rule.imp i q (some sub) ∈ s) (hk : kept q sub = true) : Rule.imp i q (some sub) ∈ t := by
+  have := kept_mem_flatImports s i q sub hm hk
+  rw [← resolve_imports s t h] at this
+  exact (List.mem_filter.1 this).1
 
-/-- the real sheet `@import "b.css" print;` with b.css = `@import "n.css" (not loaded); b{}` -/
+/-- **HierarchyRequestErr never leaves `resolveImports`** (the `except HierarchyRequestErr` around the
+nested call and the raising `CSSMediaRule.add` are transcribed in the model; neither is reached) -/
+theorem resolve_never_hierarchy (s : Sheet) : resolveImports s ≠ .raised .hierarchy := resolve_hierarchy_never s
+
+/-- the outcomes of `resolveImports`: a flat sheet, or NoModificationAllowedErr (`namespace_clash_raises`) -/
+theorem resolve_outcomes (s : Sheet) : (∃ t, resolveImports s = .ok t) ∨ resolveImports s = .raised .noModification := by
+  cases h : resolveImports s with
+  | ok t => exact Or.inl ⟨t, rfl⟩
+  | raised e =>
+    cases e with
+    | hierarchy => exact absurd h (resolve_never_hierarchy s)
+    | noModification => exact Or.inr rfl
+    | fuel => exact absurd h (resolve_fuel_never s)
+
+/-- **what happens to an unloaded @import inside a media-restricted loaded import**: whenever the flat
+sheet of the imported sheet holds an @import rule, the restricted import is kept — it is an @import rule
+of the result, with its media and its sheet, and contributes only its START comment to the body ("In
+these cases the @import rule is kept as in the original sheet", docstring) -/
+theorem restricted_nested_unloaded_kept (s t : Sheet) (i q : Nat) (sub : Sheet)
+    (h : resolveImports s = .ok t) (hm : Rule.imp i q (some sub) ∈ s) (hq : q ≠ 0) (hu : flatImports sub ≠ []) :
+    kept q sub = true ∧ Rule.imp i q (some sub) ∈ t := by
+  have hk : kept q sub = true := by
+    have hq' : (q != 0) = true := by simpa using hq
+    have : (flatImports sub).isEmpty = false := by cases hf : flatImports sub <;> simp_all
+    rw [kept_iff, flatHard_eq, hq', this]; simp
+  exact ⟨hk, resolve_kept_stays s t i q sub h hm hk⟩
+
+/-- … in particular when the imported sheet has an @import that was not loaded -/
+theorem restricted_unloaded_kept (s t : Sheet) (i q : Nat) (sub : Sheet) (j p : Nat)
+    (h : resolveImports s = .ok t) (hm : Rule.imp i q (some sub) ∈ s) (hq : q ≠ 0) (hu : Rule.imp j p none ∈ sub) :
+    Rule.imp i q (some sub) ∈ t := by
+  refine (restricted_nested_unloaded_kept s t i q sub h hm hq ?_).2
+  intro he
+  have := (unloaded_sublist_flatImports sub).subset (List.mem_filter.2 ⟨hu, rfl⟩)
+  rw [he] at this; simp at this
+
+/-- non-vacuity of `restricted_nested_unloaded_kept`; it needs both hypotheses: with media `all` the
+unloaded import is handed up and the import dissolved, and a restricted import of a sheet without an
+@import left is wrapped -/
+example : Rule.imp 1 5 (some [.imp 2 0 none, .style 2 []]) ∈ [Rule.imp 1 5 (some [.imp 2 0 none, .style 2 []]), .style 9 []] ∧
+    flatImports [.imp 2 0 none, .style 2 []] ≠ [] ∧
+    resolveImports [.imp 1 0 (some [.imp 2 0 none, .style 2 []]), .style 9 []] =
+      .ok [.start 1, .imp 2 0 none, .style 2 [], .style 9 []] ∧
+    resolveImports [.imp 1 5 (some [.imp 2 0 (some [.style 3 []]), .style 2 []]), .style 9 []] =
+      .ok [.start 1, .media 5 [.start 2, .style 3 [], .style 2 []], .style 9 []] := by
+  refine ⟨by simp, by decide, rfl, rfl⟩
+
+/-- the real sheet `@import "b.css" print; x{}` with b.css = `@import "n.css" (not loaded); b{}`: the
+import is kept behind its START comment (HierarchyRequestErr before the repair of the library) -/
 theorem restricted_nested_unloaded_witness :
-    resolveImports [.imp 1 5 (some [.imp 2 0 none, .style 2 []]), .style 9 []] = .raised .hierarchy ∧
-    -- one level down the exception is caught and the whole import is kept
+    resolveImports [.imp 1 5 (some [.imp 2 0 none, .style 2 []]), .style 9 []] =
+      .ok [.start 1, .imp 1 5 (some [.imp 2 0 none, .style 2 []]), .style 9 []] ∧
+    -- one level down: the kept import is handed up by the unrestricted import around it
     resolveImports [.imp 0 0 (some [.imp 1 5 (some [.imp 2 0 none, .style 2 []]), .style 1 []]), .style 9 []] =
-      .ok [.start 0, .imp 0 0 (some [.imp 1 5 (some [.imp 2 0 none, .style 2 []]), .style 1 []]), .style 9 []] := ⟨rfl, rfl⟩
+      .ok [.start 0, .imp 1 5 (some [.imp 2 0 none, .style 2 []]), .start 1, .style 1 [], .style 9 []] ∧
+    -- … and makes a restricted import around it a kept one
+    resolveImports [.imp 0 5 (some [.imp 1 5 (some [.imp 2 0 none, .style 2 []]), .style 1 []]), .style 9 []] =
+      .ok [.start 0, .imp 0 5 (some [.imp 1 5 (some [.imp 2 0 none, .style 2 []]), .style 1 []]), .style 9 []] :=
+  ⟨rfl, rfl, rfl⟩
 
 /-- **(c) media**: a loaded import that is not kept contributes, at its place, its START comment and then
 — if it is media-restricted — ONE @media block with its query holding the whole body of its flat sheet
-(only comments and style rules, and that flat sheet has no @import); if its media is `all`, the body of
+(only comments and style rules, and that flat sheet has no @import: both are what "not kept" means); if its media is `all`, the body of
 its flat sheet unwrapped, and its @imports join the @imports of the flat sheet -/
 theorem resolve_media_wrapped (pre post sub t : Sheet) (i q : Nat)
     (h : resolveImports (pre ++ .imp i q (some sub) :: post) = .ok t) (hk : kept q sub = false) :
@@ -215,8 +260,7 @@ theorem resolve_media_wrapped (pre post sub t : Sheet) (i q : Nat)
       t.filter Rule.isImport = flatImports pre ++ flatImports post) ∧
     (q = 0 → t.filter Rule.isBody = flatBody pre ++ .start i :: (flatBody sub ++ flatBody post) ∧
       t.filter Rule.isImport = flatImports pre ++ (flatImports sub ++ flatImports post)) := by
-  obtain ⟨hr, hi, hb, _, _⟩ := resolve_ok _ t h
-  rw [raisesHierarchy_append, raisesHierarchy_cons, Bool.or_eq_false_iff, Bool.or_eq_false_iff] at hr
+  obtain ⟨hi, hb, _, _⟩ := resolve_ok _ t h
   have hb' : t.filter Rule.isBody = flatBody (pre ++ .imp i q (some sub) :: post) := hb
   have hi' : t.filter Rule.isImport = flatImports (pre ++ .imp i q (some sub) :: post) := hi
   rw [flatBody_append, flatBody_cons] at hb'
@@ -224,19 +268,16 @@ theorem resolve_media_wrapped (pre post sub t : Sheet) (i q : Nat)
   simp only [hk, Bool.false_eq_true, if_false] at hb' hi'
   constructor
   · intro hq
-    have hr2 := hr.2.1
-    simp only [hk, Bool.not_false, Bool.true_and] at hr2
     have hq' : (q != 0) = true := by simpa using hq
-    rw [hq', Bool.true_and] at hr2
+    have hhard : flatHard sub = false := by
+      have := hk
+      rw [kept_iff, hq', Bool.true_and] at this
+      exact this
+    rw [flatHard_eq, Bool.or_eq_false_iff, Bool.or_eq_false_iff] at hhard
     have hemp : flatImports sub = [] := by
       cases hf : flatImports sub with
       | nil => rfl
-      | cons a l => rw [hf] at hr2; simp at hr2
-    have hhard : flatHard sub = false := by
-      have := hk
-      rw [kept_iff, Bool.or_eq_false_iff, hq', Bool.true_and] at this
-      exact this.2
-    rw [flatHard_eq, Bool.or_eq_false_iff] at hhard
+      | cons a l => have := hhard.1.2; rw [hf] at this; simp at this
     simp only [hq, if_false] at hb' hi'
     exact ⟨by rw [hb']; simp, hemp, hhard.2, by rw [hi']; simp⟩
   · intro hq
@@ -245,10 +286,14 @@ theorem resolve_media_wrapped (pre post sub t : Sheet) (i q : Nat)
 
 /-- the block of a restricted import is the whole flat sheet of the imported sheet -/
 theorem wrapped_is_flat_sheet (sub t' : Sheet) (q : Nat) (hq : q ≠ 0) (hk : kept q sub = false)
-    (hu : flatImports sub = []) (h : resolveImports sub = .ok t') : t' = flatBody sub := by
-  obtain ⟨_, hi, hb, hn, hc⟩ := resolve_ok sub t' h
+    (h : resolveImports sub = .ok t') : t' = flatBody sub := by
+  obtain ⟨hi, hb, hn, hc⟩ := resolve_ok sub t' h
   have hq' : (q != 0) = true := by simpa using hq
-  rw [kept_iff, Bool.or_eq_false_iff, hq', Bool.true_and, flatHard_eq, Bool.or_eq_false_iff] at hk
+  rw [kept_iff, hq', Bool.true_and, flatHard_eq, Bool.or_eq_false_iff, Bool.or_eq_false_iff] at hk
+  have hu : flatImports sub = [] := by
+    cases hf : flatImports sub with
+    | nil => rfl
+    | cons a l => have := hk.1.2; rw [hf] at this; simp at this
   rw [← hb]
   symm
   unfold body
@@ -261,7 +306,7 @@ theorem wrapped_is_flat_sheet (sub t' : Sheet) (q : Nat) (hq : q ≠ 0) (hk : ke
       have : x ∈ imports t' := List.mem_filter.2 ⟨hx, hxi⟩
       rw [hi, hu] at this; simp at this
   have h2 : x.isNs = false := by
-    have := hk.2.1 ▸ hn
+    have := hk.1.1 ▸ hn
     simp only [hasNs, List.any_eq_false] at this
     simpa using this x hx
   have h3 : x.isCharset = false := by
@@ -279,22 +324,6 @@ example : kept 5 [.imp 2 0 (some [.style 1 []]), .comment 3] = false ∧
     resolveImports [.imp 1 5 (some [.imp 2 6 (some [.style 1 []])]), .style 9 []] =
       .ok [.start 1, .imp 1 5 (some [.imp 2 6 (some [.style 1 []])]), .style 9 []] := ⟨rfl, rfl, rfl⟩
 
-/-- a kept import stays an @import rule of the flat sheet -/
-theorem kept_mem_flatImports : ∀ (s : Sheet) (i q : Nat) (sub : Sheet), Rule.imp i q (some sub) ∈ s →
-    kept q sub = true → Rule.imp i q (some sub) ∈ flatImports s
-  | [], _, _, _, h, _ => by simp at h
-  | r :: rs, i, q, sub, h, hk => by
-    rw [flatImports_cons]
-    rcases List.mem_cons.1 h with h | h
-    · subst h; simp [hk]
-    · exact List.mem_append_right _ (kept_mem_flatImports rs i q sub h hk)
-
-theorem resolve_kept_stays (s t : Sheet) (i q : Nat) (sub : Sheet) (h : resolveImports s = .ok t)
-    (hm : Rule.imp i q (some sub) ∈ s) (hk : kept q sub = true) : Rule.imp i q (some sub) ∈ t := by
-  have := kept_mem_flatImports s i q sub hm hk
-  rw [← resolve_imports s t h] at this
-  exact (List.mem_filter.1 this).1
-
 /-- **(d) no loaded import is left** when every media-restricted loaded import (at any depth) imports a
 plain sheet: @charset, comments, style rules and loaded unrestricted imports of plain sheets -/
 theorem resolve_no_loaded_import_left (s t : Sheet) (h : resolveImports s = .ok t) (hi : inlinableL s = true) :
@@ -306,7 +335,7 @@ theorem resolve_no_loaded_import_left (s t : Sheet) (h : resolveImports s = .ok 
     have himp : r.isImport = true := by cases r <;> simp [Rule.isLoaded] at hl <;> rfl
     have : r ∈ flatImports s := by
       rw [← resolve_imports s t h]; exact List.mem_filter.2 ⟨hr, himp⟩
-    have hu := List.all_eq_true.1 (inlinableL_sum s hi).2.2 r this
+    have hu := List.all_eq_true.1 (inlinableL_sum s hi).2 r this
     cases r <;> simp [Rule.isLoaded] at hl
     rename_i i q tg
     cases tg <;> simp [Rule.isUnloaded] at hu hl
